@@ -367,8 +367,74 @@ theorem invB_lock {P : Proto} {limit pre I : Nat} {c : Cfg} (h : InvB P limit pr
     · intro j _ hj; rw [hfree j] at hj; cases hj
     · intro _ j _; exact hfree j
 
+theorem mem_holdLock' (locks : List Nat) (i : Nat) : i ∈ holdLock locks i := by
+  unfold holdLock
+  split
+  · assumption
+  · exact List.mem_cons_self
+
+/-- Read-modify-write requests on one record, serialised by the instance mutex. -/
+theorem invB_rmw {P : Proto} {limit pre I : Nat} {c : Cfg} (h : InvB P limit pre I c) (tid : Nat) (isRevoke : Bool)
+    (hm : P.mutex = true) (hsw : P.staleWrite = false) (hI : (c.threads tid).inst = I)
+    (hne : (c.threads tid).ops ≠ []) : InvB P limit pre I (rmwStep P c tid isRevoke) := by
+  have old := h.thr tid
+  unfold rmwStep
+  split
+  · -- idle: lock + read in one step, or queue up
+    rename_i hpc
+    simp only [hm, hsw, Bool.not_false, Bool.and_self, if_true]
+    by_cases hl : (c.threads tid).inst ∈ c.locks
+    · simp only [hl, if_true]
+      have := invB_lock h tid hI hpc
+      unfold lockStep at this
+      simpa only [hl, if_true] using this
+    · simp only [hl, if_false]
+      have hfree : ∀ j, inside (c.threads j).pc = false := by
+        intro j
+        cases hin : inside (c.threads j).pc with
+        | false => rfl
+        | true =>
+          have := (h.thr j).held hin
+          rw [← hI] at this
+          exact absurd this hl
+      refine invB_upd h tid { c.threads tid with pc := .noise (if 0 ∈ c.occ then 1 else 0) } _ (base_stp h.base tid _ _) rfl
+        ?_ ?_ ?_
+      · refine ⟨old.inst, fun _ => hI, fun _ => ?_, ?_, ?_, ?_⟩
+        · simp only [stpCfg, hI]; exact mem_holdLock' _ _
+        · intro s k hh; cases hh
+        · intro s k hh; cases hh
+        · intro s k hh; cases hh
+      · intro j _ hj; rw [hfree j] at hj; cases hj
+      · intro _ j _; exact hfree j
+  · exact ⟨base_blk (c' := blkCfg c tid) h.base tid rfl rfl rfl rfl, h.thr, h.excl⟩
+  · rename_i hpc
+    exact invB_stp_in h tid _ (by rw [hpc]; rfl) (by intro s k hh; cases hh) (by intro s k hh; cases hh)
+      (by intro r a hh; cases hh)
+  · rename_i k hpc
+    have hni : inside (c.threads tid).pc = true := by rw [hpc]; rfl
+    split
+    · unfold mrevokeWrite
+      split
+      · rename_i hin
+        have hid := others_out h tid hni
+        have hnid : (c.threads tid).pc ≠ .idle := by rw [hpc]; simp
+        have h1 : InvB P limit pre I (relCore c tid 0) := by
+          refine invB_upd h tid (finishOp (c.threads tid)) _ (base_rel h.base tid 0 _ hin) rfl ?_ ?_ ?_
+          · exact idleThread_ok (c.threads tid) _ rfl rfl (fun hh => tail_ne_nil _ hh) old.inst
+          · intro j hj hin'; rw [hid j hj] at hin'; cases hin'
+          · intro hh; cases hh
+        unfold unlockCfg
+        simp only [hm, if_true]
+        exact invB_handover h1 _ (old.winst hnid) (none_inside_after tid _ rfl hid) (old.held hni)
+      · exact invB_done h tid hm hni
+    · unfold touchWrite
+      simp only [hsw, Bool.false_and, Bool.false_eq_true, if_false]
+      exact invB_done h tid hm hni
+  · exact h
+
 theorem invB_step {P : Proto} {limit pre I : Nat} {c : Cfg} (h : InvB P limit pre I c) (tid : Nat)
-    (hm : P.mutex = true) (he : P.early = true) (hf : P.final = .plain) (hfu : P.fused = false) :
+    (hm : P.mutex = true) (he : P.early = true) (hf : P.final = .plain) (hfu : P.fused = false)
+    (hsw : P.staleWrite = false) :
     InvB P limit pre I (stepThread P limit c tid) := by
   have old := h.thr tid
   unfold stepThread
@@ -483,6 +549,12 @@ theorem invB_step {P : Proto} {limit pre I : Nat} {c : Cfg} (h : InvB P limit pr
           simp only [PC.scanning.injEq] at hh
           rw [← hh.1, ← hh.2]; exact hadv
     · exact h
+  · rename_i hops
+    have hne : (c.threads tid).ops ≠ [] := by rw [hops]; simp
+    exact invB_rmw h tid false hm hsw (old.inst hne) hne
+  · rename_i hops
+    have hne : (c.threads tid).ops ≠ [] := by rw [hops]; simp
+    exact invB_rmw h tid true hm hsw (old.inst hne) hne
   · -- revoke through the service: not under the quota mutex
     rename_i hops
     have hne : (c.threads tid).ops ≠ [] := by rw [hops]; simp
@@ -516,12 +588,13 @@ theorem invB_step {P : Proto} {limit pre I : Nat} {c : Cfg} (h : InvB P limit pr
     · exact h
 
 theorem invB_run {P : Proto} {limit pre I : Nat} (hm : P.mutex = true) (he : P.early = true) (hf : P.final = .plain)
-    (hfu : P.fused = false) (σ : List Nat) (c : Cfg) (h : InvB P limit pre I c) : InvB P limit pre I (run P limit c σ) := by
+    (hfu : P.fused = false) (hsw : P.staleWrite = false) (σ : List Nat) (c : Cfg) (h : InvB P limit pre I c) :
+    InvB P limit pre I (run P limit c σ) := by
   induction σ generalizing c with
   | nil => exact h
   | cons t r ih =>
     simp only [run, List.foldl_cons]
-    exact ih _ (invB_step h t hm he hf hfu)
+    exact ih _ (invB_step h t hm he hf hfu hsw)
 
 theorem invB_initDead (P : Proto) (limit dead pre I : Nat) (progs : List (List Op))
     (h : capOk P.zeroUnl limit pre = true) :
